@@ -43,6 +43,9 @@ pub struct Script {
     close_reports: usize,
     /// when set, poll_write accepts nothing (a client that does not read)
     pub stalled: bool,
+    /// when set, every write fails with BrokenPipe (the peer is gone while its bytes are still readable);
+    /// what the session TRIED to write is still recorded
+    pub wfail: bool,
 }
 
 pub struct Transport(Arc<Mutex<Script>>);
@@ -84,6 +87,9 @@ impl AsyncWrite for Transport {
             return Poll::Pending;
         }
         s.written.extend_from_slice(buf);
+        if s.wfail {
+            return Poll::Ready(Err(std::io::ErrorKind::BrokenPipe.into()));
+        }
         Poll::Ready(Ok(buf.len()))
     }
     fn poll_flush(self: Pin<&mut Self>, _cx: &mut Context<'_>) -> Poll<std::io::Result<()>> {
@@ -257,6 +263,20 @@ pub fn run_case(out: &mut Out, inst_tok: &str, tag: &str, evs: &[Ev], nontrivial
         outs.push(s.event(e));
     }
     out.case(&format!("{} {} {}", tag, inst_tok, ins.join(" ")), &outs.join(" "), nontrivial);
+}
+
+/// The same with a peer that is already gone: every write the session attempts fails.
+pub fn run_case_wfail(out: &mut Out, inst_tok: &str, tag: &str, evs: &[Ev], nontrivial: bool) {
+    let mut s = SessionRun::new();
+    s.script.lock().unwrap().wfail = true;
+    let mut ins = vec![];
+    let mut outs = vec![];
+    for e in evs {
+        ins.push(ev_tok(e));
+        outs.push(s.event(e));
+    }
+    out.case(&format!("{} {} {}", tag, inst_tok, ins.join(" ")), &outs.join(" "), nontrivial);
+    out.count("transport: writes fail (peer gone)");
 }
 
 /// Frame bytes: header + payload.
